@@ -161,7 +161,7 @@ func gen(w *kit.Out, r *kit.Rand, tier string) {
 			w.Op("%s", l)
 		}
 	}
-	nCases, nOps := 3, 35
+	nCases, nOps := 2, 30
 	if tier == "thorough" {
 		nCases, nOps = 40, 60
 	}
